@@ -90,3 +90,20 @@ Proof. reflexivity. Qed.
 (* C03 on the translated step: never FIRST, MID with discount 1 or LAST with discount 0 (no truncation) -- any state, any action *)
 Lemma src_step_protocol R C T (draw : list (list bool) -> Z * Z) s a : step_ok 1 false (snd (step R C T draw s a)) = true.
 Proof. destruct (step_src R C T draw s a) as [_ E]. rewrite E. apply protocol_step. Qed.
+
+(* C11 on the translated step: LAST from the limit on; an earlier LAST has a cause (masked-out move, or the board is full) *)
+Lemma src_never_later R C T (draw : list (list bool) -> Z * Z) s a : T <= s_step_count s + 1 -> st (snd (step R C T draw s a)) = LAST.
+Proof. intros H. destruct (step_src R C T draw s a) as [_ E]. rewrite E. apply limit_is_last. exact H. Qed.
+Lemma src_not_earlier_without_cause R C T (draw : list (list bool) -> Z * Z) s a :
+  st (snd (step R C T draw s a)) = LAST -> s_step_count s + 1 < T ->
+  jget false (s_action_mask s) a = false \/ M.all_true (s_body (fst (step R C T draw s a))) = true.
+Proof.
+  intros HL Hlt. destruct (step_src R C T draw s a) as [E1 E2]. rewrite E2 in HL.
+  destruct (last_has_cause R C T (conv s) a _ HL Hlt) as [H|H]; [left; exact H | right].
+  rewrite <- E1 in H. exact H.
+Qed.
+(* C05: a masked-out move ends the episode with zero reward *)
+Lemma src_illegal_terminates R C T (draw : list (list bool) -> Z * Z) s a :
+  Inv R C T (conv s) -> 0 <= a < 4 -> jget false (s_action_mask s) a = false ->
+  snd (step R C T draw s a) = termination 1 [0] /\ ~ M.legal R C (conv s) a.
+Proof. intros I Ha Hm. destruct (step_src R C T draw s a) as [_ E]. rewrite E. exact (illegal_terminates R C T (conv s) a _ I Ha Hm). Qed.
